@@ -198,6 +198,8 @@ func runC05(c *Ctx, r *Run) {
 		r.Check("PANIC-3", n+"|explicit-panic", found[n], ok, "explicit panic is tabled: "+reason, "new explicit panic site in "+n+": not in the reviewed table (is it reachable with peer-controlled data? on which goroutine?)")
 	}
 
+	// the nil-rejecting validators themselves (pkg/math/arith): every element is examined before acceptance
+	checkGuardInventory(c, r, "PANIC-2", "round_guards.json", func(n string) bool { return strings.HasPrefix(n, "pkg/math/arith.IsValid") })
 	// ---- PANIC-4
 	checkUnmarshalers(c, r)
 
